@@ -103,7 +103,12 @@ def stmts(size, inloop, nest):
 def instantiate(sk, where, tagtxt):
     g = Gen()
     body = g.block(sk, None)
-    if where == "main":
+    if where == "main-bare":        # the skeleton is the WHOLE program: a nested 输出 sits in the last statement of the body
+        p = prog(body)
+    elif where == "fn-bare":
+        f = func("F", [], body)
+        p = prog([mark("start"), disp(call("F")), mark("end"), ex(num(7))], funcs=[f])
+    elif where == "main":
         p = prog(body + [mark("end"), ex(num(7))])
     else:
         f = func("F", [], body + [mark("fend"), ret(num(8))])
@@ -196,6 +201,9 @@ def run(ctx):
         t = sk_tag(sk)
         progs.append(instantiate(sk, "main", t))
         progs.append(instantiate(sk, "fn", t))
+        if "R" in t and (ctx.tier != "quick" or t.count(",") + t.count("(") <= 2 or rnd.random() < 0.3):      # nothing follows the skeleton: its last statement ends the body
+            progs.append(instantiate(sk, "main-bare", t + "/bare"))
+            progs.append(instantiate(sk, "fn-bare", t + "/bare"))
     log("[C02] %d skeletons exhaustive (size<=%d) + %d sampled larger -> %d programs" % (len(sks), maxsize, len(extra), len(progs)))
     stats, vecs, res = run_family(ctx, znh, progs, "c02")
     ex_ = [p for p in progs if "W(" in p.get("tag", "") and "R" in p.get("tag", "")][:2] + progs[:1]
